@@ -360,6 +360,9 @@ func modeGen(args []string) {
 			opts.maxIn = exhLimit
 		case cls < 99:
 			opts.defect = "const_cast_shared"
+			if r.Intn(3) == 0 {
+				opts.defect = "const_signed_widening"
+			}
 			opts.small = r.Bool()
 			opts.maxIn = exhLimit
 		default:
@@ -429,6 +432,8 @@ func main() {
 		modeTestsuite(os.Args[2:])
 	case "src":
 		modeSrc(os.Args[2:])
+	case "circhash":
+		modeCircHash(os.Args[2:])
 	default:
 		fmt.Fprintln(os.Stderr, "unknown mode", os.Args[1])
 		os.Exit(2)
